@@ -3,7 +3,7 @@
    vocabulary of the statement spec_scan_correct: the symbols a text decodes into, candidate words, "some rule matches",
    "some rule can still extend", the winning rule.  Definitions only (proofs: Deriv_proofs.v). *)
 From Coq Require Import List ZArith Bool.
-From TM Require Import Lex.Tables Lex.Charset Lex.Deriv.
+From TM Require Import Lex.Tables Lex.Charset Lex.RegexParse Lex.RegexSpec Lex.Deriv.
 Import ListNotations.
 Local Open Scope Z_scope.
 
@@ -79,3 +79,17 @@ Definition scan_spec (kmax : nat) (rules : list srule) (l : list (Z * nat)) (pos
    exists m, (m <= length l)%nat /\ res = sverdict last (pos + offs m l) /\
      (m = 0%nat \/ extendable rules (word l m 0)) /\
      forall m', (m' <= length l)%nat -> extendable rules (word l m' 0) -> (m' <= m)%nat).
+
+(* ---- the parsed AST (RegexParse.re) itself: its language over symbols, without going through rx ---- *)
+Definition lit_syms (b : bool) (text : list Z) : list Z := if b then text else runes_of (length text) text.
+
+Fixpoint re_lang (r : re) (w : list Z) : Prop :=
+  match r with
+  | RLit b text _ => w = lit_syms b text
+  | RCC cs _ => exists c, w = [c] /\ mem c cs = true
+  | RRep mn mx s => exists ws, w = concat ws /\ Forall (re_lang s) ws /\ rep_count mn mx (Z.of_nat (length ws))
+  | RCat l => (fix go (l : list re) (w : list Z) : Prop :=
+                 match l with [] => w = [] | s :: t => exists u v, w = u ++ v /\ re_lang s u /\ go t v end) l w
+  | RAlt l => (fix go (l : list re) : Prop := match l with [] => False | s :: t => re_lang s w \/ go t end) l
+  | RExt name _ => name = [101; 111; 105] /\ w = [eoi_sym]      (* {eoi}; other references are not resolved here *)
+  end.
